@@ -132,6 +132,10 @@ func (t *trzszTransfer) pipelineRecvHashAck(ctx context.Context, cancel context.
 	go func() {
 		defer close(matchChan)
 		matchStep := int64(0)
+		if size <= 0 { // no block to compare, so the receiver will not send any hash ack
+			matchChan <- matchStep
+			return
+		}
 		for ctx.Err() == nil {
 			hashAck, err := t.recvHashAck()
 			if err != nil {
